@@ -202,6 +202,30 @@ Proof.
   rewrite xrun_cons. cbn [fst]. apply IH. apply xstep_Inv; auto.
 Qed.
 
+(* C11_gone / C11_fresh / the executable checker on histories that contain the re-entrant scenario:
+   they are statements about any state satisfying Inv, hence about every xrun state *)
+Definition xop_ok (x : xop) : Prop := match x with Plain o => op_ok o | _ => True end.
+
+Theorem C11_gone_xrun_lemma c ops e reason :
+  cfg_ok c -> Forall xop_ok ops ->
+  let s := fst (xrun c srv_init ops) in
+  In e (live s) ->
+  gone e (sids_of_eio (mg s) e) (fst (xstep c s (Plain (EioClose e reason)))) /\
+  ((forall x, In x (live s) -> x = e) ->
+   fst (xstep c s (Plain (EioClose e reason))) = mkSrv mgr_init [] [] [] [] (fresh s)).
+Proof.
+  intros Hc Hops s Hl. assert (HI : Inv s) by (apply xrun_Inv; auto; apply Inv_init).
+  cbn [xstep]. split; [apply C11_gone_lemma; auto|]. intros Honly. apply C11_fresh_lemma; auto.
+Qed.
+
+Theorem C11_final_xrun_lemma c ops :
+  cfg_ok c -> Forall xop_ok ops ->
+  no_residue (dump_of (fst (xrun c srv_init ops))) = true /\ c11_final (dump_of (fst (xrun c srv_init ops))) = true.
+Proof.
+  intros Hc Hops. assert (HI : Inv (fst (xrun c srv_init ops))) by (apply xrun_Inv; auto; apply Inv_init).
+  split; [apply Inv_no_residue|apply Inv_c11_final]; auto.
+Qed.
+
 (* a configuration without scripted actions is well formed, whatever its handlers raise *)
 Lemma cfg_ok_no_actions c : has_actions c = false -> cfg_ok c.
 Proof.
